@@ -138,6 +138,11 @@ def gen_value(d, rng, depth=0, length=None):
     if t in ("DiameterIdentityType", "UTF8StringType"):
         n = length if length is not None else rng.randint(1, 23)
         s = "".join(rng.choice("abcdefghijklmnopqrstuvwxyz0123456789.-") for _ in range(n))
+        if t == "UTF8StringType" and n >= 3 and rng.random() < 0.25:
+            # white space is data like anything else: blanks, tabs, line breaks at either end and inside, non-ASCII text
+            w = rng.choice([" ", "\t", "\n", "\r\n", "  "])
+            k = rng.randrange(4)
+            s = (w + s[len(w):]) if k == 0 else (s[:-len(w)] + w) if k == 1 else (s[:1] + w + s[1 + len(w):]) if k == 2 else ("\u00e9" + s[2:])
         if rng.random() < 0.5 and d.name not in SESSION_ID_CLASSES:     # a str makes these generate a Session-Id (C16)
             return s, s.encode()
         return s.encode(), s.encode()
